@@ -119,11 +119,10 @@ def digitsVal : List Char → Option Nat → Bool → Option Nat
 
 /-- Python `int(str)` on an ASCII string (base 10). -/
 def pyInt (cs : List Char) : Option Int :=
-  let t := stripWs cs
-  match t with
-  | '+' :: r => (digitsVal r none false).map (fun v => (v : Int))
-  | '-' :: r => (digitsVal r none false).map (fun v => -(v : Int))
-  | r => (digitsVal r none false).map (fun v => (v : Int))
+  match stripWs cs with
+  | '+' :: r => (digitsVal r none false).map Int.ofNat
+  | '-' :: r => (digitsVal r none false).map (fun v => - Int.ofNat v)
+  | r => (digitsVal r none false).map Int.ofNat
 
 def splitOnComma (cs : List Char) : List (List Char) :=
   let rec go : List Char → List Char → List (List Char)
